@@ -7,6 +7,7 @@ recorded by a forwarding proxy in place of the module's `np` (the function body 
 """
 import base64
 import json
+import signal
 import sys
 import warnings
 
@@ -33,6 +34,23 @@ def fl(a):
 
 def err(e):
     return {"error": type(e).__name__, "msg": str(e)[:200]}
+
+
+class RunTimeout(Exception):
+    """one configuration of one case ran for longer than the per-configuration limit"""
+
+
+TIMEOUTS = [0]
+
+
+def _alarm(signum, frame):
+    TIMEOUTS[0] += 1
+    signal.alarm(5)          # whatever is called next gets 5 more seconds
+    raise RunTimeout("configuration did not finish within %d s" % LIMIT)
+
+
+LIMIT = int(req.get("limit", 120))
+signal.signal(signal.SIGALRM, _alarm)
 
 
 def mk_geo(g):
@@ -206,6 +224,13 @@ def run_case(case):
     for cfg in case["configs"]:
         o = {"cfg": cfg}
         kw = dict(reduce_data=cfg["reduce"], nprocs=cfg["nprocs"], segments=cfg["segments"])
+        if TIMEOUTS[0] >= 3:
+            # the implementation hangs: do not spend the whole budget waiting; what was observed so far is reported
+            o.update({"skipped": True, "info1": {"error": "Skipped"}, "infok": {"error": "Skipped"},
+                      "two_step": [None] * len(dsets), "fresh": [None] * len(dsets)})
+            runs.append(o)
+            continue
+        signal.alarm(LIMIT if TIMEOUTS[0] == 0 else 10)
         try:
             info1 = kd_tree.get_neighbour_info(src, tgt, r, neighbours=1, **kw)
             o["info1"] = info_json(info1)
@@ -218,6 +243,12 @@ def run_case(case):
         except Exception as e:
             infok = None
             o["infok"] = err(e)
+        signal.alarm(0)
+        if info1 is None and infok is None and "RunTimeout" in (o["info1"].get("error"), o["infok"].get("error")):
+            o["two_step"], o["fresh"] = [None] * len(dsets), [None] * len(dsets)
+            runs.append(o)
+            continue
+        signal.alarm(3 * LIMIT)
         o["two_step"], o["fresh"] = [], []
         before = [[np.array(a, copy=True) for a in i] if i is not None else None for i in (info1, infok)]
         for di, (data, dd) in enumerate(dsets):
@@ -236,6 +267,7 @@ def run_case(case):
             if i is not None:
                 same = same and all(np.array_equal(x, y, equal_nan=True) for x, y in zip(i, b))
         o["info_unchanged_by_sampling"] = bool(same)
+        signal.alarm(0)
         runs.append(o)
     out["runs"] = runs
     return out
